@@ -448,8 +448,8 @@ func (term *TermInvoke) LLString() string {
 		fmt.Fprintf(buf, " %s", attr)
 	}
 	// (optional) Address space.
-	if term.AddrSpace != 0 {
-		fmt.Fprintf(buf, " %s", term.AddrSpace)
+	if addrSpace := calleeAddrSpace(term.AddrSpace, term.Invokee); addrSpace != 0 {
+		fmt.Fprintf(buf, " %s", addrSpace)
 	}
 	// Use function signature instead of return type for variadic functions.
 	invokeeType := term.Type()
@@ -618,8 +618,8 @@ func (term *TermCallBr) LLString() string {
 		fmt.Fprintf(buf, " %s", attr)
 	}
 	// (optional) Address space.
-	if term.AddrSpace != 0 {
-		fmt.Fprintf(buf, " %s", term.AddrSpace)
+	if addrSpace := calleeAddrSpace(term.AddrSpace, term.Callee); addrSpace != 0 {
+		fmt.Fprintf(buf, " %s", addrSpace)
 	}
 	// Use function signature instead of return type for variadic functions.
 	calleeType := term.Type()
